@@ -85,7 +85,7 @@ class C01(S.SchedCheck):
     design_ref = "DESIGN.md §5 C01, Appendix A.1"
     technique = ("Lean 4 theorems over an executable model of Doist/DoDoer/Doer (nested generator scheduler, deque+marker as zipper), "
                  "tied to hio.base.doing by a seeded differential run of the compiled model; lifecycle automaton as independent oracle on the real trace")
-    level_text = ('Lean theorems, for every time type, every program (forest of doers incl. nested DoDoers with own extend pools), every tock/start/limit and every fuel: lifecycle_wf (strict automaton enter.recur*.(clean|cease|abort).exit per doer id, restartable after exit, final state idle; extend and remove allowed; hypotheses: all ids of the program distinct, no pool doer removes itself, no script raises KeyboardInterrupt), lifecycle_wf_weak (same without the KeyboardInterrupt hypothesis for the automaton that also accepts exit straight from running), lifecycle_wf_partial / lifecycle_wf_weak_partial (no-extend programs, only the entered ids distinct). The strict property is proved to FAIL with KeyboardInterrupt (lifecycle_kbint_skips_abort, decide) = known finding C01-K1 (pre-finding F01). The hypothesis that no pool doer removes itself is necessary: lifecycle_fails_when_pool_doer_removes_itself (decide) = known finding C01-K2, reproduced on the real code (a self-removed doer keeps running and a later extend() enters it a second time). All exit paths named by the property (completion, limit, raise at any step, removal, failing enter in do() and inside extend(), KeyboardInterrupt) are cases of the one universally quantified theorem. The hand-written model is tied to hio.base.doing by the differential run (string equality of the whole trace incl. observed tymes, flags, done, tyme, raised, doers).')
+    level_text = ('Lean theorems, for every time type, every program (forest of doers incl. nested DoDoers with own extend pools), every tock/start/limit and every fuel: lifecycle_wf (strict automaton enter.recur*.(clean|cease|abort).exit per doer id, restartable after exit, final state idle; extend and remove allowed; hypotheses: all ids of the program distinct, no pool doer removes itself, no script raises KeyboardInterrupt), lifecycle_wf_weak (same without the KeyboardInterrupt hypothesis for the automaton that also accepts exit straight from running), lifecycle_wf_partial / lifecycle_wf_weak_partial (no-extend programs, only the entered ids distinct). The strict property is proved to FAIL with KeyboardInterrupt (lifecycle_kbint_skips_abort, decide) = known finding C01-K1 (pre-finding F01). The hypothesis that no pool doer removes itself is necessary: lifecycle_fails_when_pool_doer_removes_itself (decide) = known finding C01-K2, reproduced on the real code (a self-removed doer keeps running and a later extend() enters it a second time). Second generation (Model2: exception kinds Exception/KeyboardInterrupt/SystemExit at every step and in every enter - Doist.enter, DoDoer.enter, enter inside extend - and clean actions that raise): lifecycle_wf2 (strict; hypotheses as lifecycle_wf with only-Exception kinds), lifecycle_wf2_weak (any kinds), witnesses lifecycle2_sysexit_skips_abort and lifecycle2_kbint_in_enter_skips_abort (C01-K1 in its new forms). model2_is_model_on_old_scripts and model3_is_model2_without_close_ops tie the generations. For Model3 (ops issued from cease/exit actions, re-entrant forced shutdown): lifecycle_wf3_partial / lifecycle_wf3_weak_partial under the extra static guard closeOpsRemoveNonPool3 (close-time ops are removes of non-pool doers; close-time extend, close-time remove of pool doers and self-removal from an exit action are NOT covered by the theorem - correspondence + oracle only) and starved=false (the model close fuel sufficed). All exit paths named by the property (completion, limit, raise at any step, removal, failing enter in do() and inside extend(), KeyboardInterrupt) are cases of the one universally quantified theorem. The hand-written model is tied to hio.base.doing by the differential run (string equality of the whole trace incl. observed tymes, flags, done, tyme, raised, doers).')
     level_note = ('Trusted: Lean kernel + propext/Classical.choice/Quot.sound; that the sampled correspondence (five Python doer shapes, random forests + regression corpus + exhaustive single-fault scope in thorough) is representative; F04 (enter failing inside extend) and F05/F06 (duplicates) were repaired on fix/sched and the model follows the repaired code; KeyboardInterrupt inside enter and CPython GC finalisation are not modelled (the adapter reports GC-only exits as `late`).')
     rule = ("random doer forests (depth<=3, <=~12 doers, scripts<=6 steps, five Python doer shapes, yields None/0/fractions and multiples of the tock, "
             "DoDoer tock 0/non-zero/always, per-scheduler extend pools, extend/remove ops, raise/kbint/failing enter planted per step, limits incl. 0/negative/non-multiples) "
